@@ -31,3 +31,31 @@ Theorem C04_plain_lexer_never_out_of_range : forall ts sm s,
   Forall is_plain ts -> ts <> [] -> create_lexer ts = Some sm -> dfa_match_oob sm s = false.
 Proof. exact plain_lexer_no_oob. Qed.
 Print Assumptions C04_plain_lexer_never_out_of_range.
+
+(* ---- namespace stdex / utils below the model (appended by tools/append_props.py) *)
+Require Import Ctpg.Base.Prelude.
+Require Import Ctpg.Model.Grammar.
+Require Import Ctpg.Model.Containers.
+Require Import Ctpg.Model.Utils.
+Require Import Ctpg.Proofs.ContainersBits.
+Require Import Ctpg.Proofs.ContainersVec.
+Require Import Ctpg.Proofs.ContainersSort.
+Require Import Ctpg.Proofs.UtilsCorrect.
+
+(* skip_whitespace asks utils::find_char(byte, table): a NUL byte is never found in a NUL-terminated table - embedded NULs are not skipped *)
+Theorem C04_nul_is_never_whitespace :
+  forall s rest : list nat, nul_free s -> find_char 0 (s ++ 0 :: rest) 0 = Ok None.
+Proof. exact @find_char_nul. Qed.
+Print Assumptions C04_nul_is_never_whitespace.
+
+(* for every other byte, found <-> the byte is one of the table's characters *)
+Theorem C04_whitespace_test_is_membership_in_the_table :
+  forall (c : nat) (s rest : list nat), nul_free s -> c <> 0 -> (exists k : nat, find_char c (s ++ 0 :: rest) 0 = Ok (Some k)) <-> In c s.
+Proof. exact @find_char_member. Qed.
+Print Assumptions C04_whitespace_test_is_membership_in_the_table.
+
+(* the result depends only on the string up to its terminator *)
+Theorem C04_find_char_reads_nothing_behind_the_terminator :
+  forall (c : nat) (s rest : list nat) (i : nat), nul_free s -> find_char c (s ++ 0 :: rest) i = Ok (if c =? 0 then None else index_of c s i).
+Proof. exact @find_char_spec. Qed.
+Print Assumptions C04_find_char_reads_nothing_behind_the_terminator.
